@@ -483,6 +483,27 @@ pub fn gen_c04(out: &mut Out, rng: &mut Rng, thorough: bool) {
             ),
         );
     }
+    // … and through a client that had to refuse a request before (beyond the PDU limit): what
+    // reaches the line afterwards is still CRC-correct frames only
+    for i in 0..(if thorough { 400 } else { 40 }) {
+        let unit = rng.unit();
+        let (n1, n2, n3) = (2 * rng.range(124, 140), rng.range(253, 300), 2 * rng.range(122, 130));
+        let fc = *rng.pick(&[0x07u8, 0x0B, 0x0C, 0x18]);
+        let big = match i % 3 {
+            0 => format!("WMR:0000:{}", hex_raw(&rng.bytes(n1))),
+            1 => format!("CU:{}:{}", hex8(fc), hex_raw(&rng.bytes(n2))),
+            _ => format!("RWM:0000:0001:0000:{}", hex_raw(&rng.bytes(n3))),
+        };
+        let again = if i % 4 == 0 { format!(" | call {big}") } else { String::new() };
+        monitor_line(
+            out,
+            &format!(
+                "cli rtu {} | call {big}{again} | call RHR:0001:0001 r=d{}",
+                hex8(unit),
+                hex_raw(&spec::rtu_frame(unit, &[0x03, 0x02, 0x00, 0x07]))
+            ),
+        );
+    }
     // corruptions of valid frames
     // (thorough: every one of the 65536 CRC values for each sample - 24 samples are 1.6 million streams)
     let samples = if thorough { 24 } else { 16 };
